@@ -688,3 +688,75 @@ def svo(cx):
         else:
             cx.ok(None, construct=f"{o}: {len(mine) - len(early)} histories of length <= {maxlen} ending in it", detail="the older handle = a fresh view, expected values, frame", anchor=anchor, sub=o)
     cx.note(None, detail=f"{len(results)} histories evaluated")
+
+
+# ------------------------------------------------------------------------------------------ L9 sibling classes as values
+@rule("L9", ["C01", "C09", "C05"], "an array built from an xobject of ANOTHER array class (same shape and item type, another axis order, also under the same class name) reads back the source's elements index by index")
+def l9(cx):
+    """Array classes are made on demand and named after shape and item type only: `Float64[2,3]` and `Float64[2:1,3:0]`
+    are two classes with one name and two memory layouts.  The constructor accepts any array-like value; for an xobject
+    of a sibling class the elements must be taken over index by index (a byte image of one layout is not an image of
+    the other).  Evaluated for static and dynamic shapes, Float64 and String items, C->F and F->C, stand-alone and
+    as a struct field; the copy is read through a view made afresh from (buffer, offset)."""
+    m = cx.m
+    for _mod in ('struct', 'array', 'string', 'scalar', 'typeutils'):
+        m.mod(_mod)
+    m.func("array::Array._to_buffer")
+    m.func("array::Array._inspect_args")
+    n = 0
+    cases = []
+    for item in ("Float64", "String"):
+        for shape in ([2, 3], [None, None], [None, 3]):
+            for o_src, o_dst in (((0, 1), (1, 0)), ((1, 0), (0, 1))):
+                for where in ("alone", "field"):
+                    cases.append((item, shape, o_src, o_dst, where))
+    if cx.tier != "thorough":
+        cases = [c for c in cases if not (c[1] == [None, 3] and c[4] == "field")]
+    for item, shape, o_src, o_dst, where in cases:
+        n += 1
+        ow = ObjWorld(m)
+        I = ow.I
+        label = f"{item}{shape} order {list(o_dst)} built from an object of the order-{list(o_src)} class of the same name" + (" (as a struct field)" if where == "field" else "")
+        out = {}
+
+        def thunk():
+            T = I.global_lookup("scalar", "Float64") if item == "Float64" else I.global_lookup("string", "String")
+            nm = "Arr" + "x".join("N" if d is None else str(d) for d in shape) + item
+            B = ow.lab.array(nm, shape, o_src, T)
+            A = ow.lab.array(nm, shape, o_dst, T)
+            if item == "Float64":
+                vals = [[1.0, 2.0, 3.0], [4.0, 5.0, 6.0]]
+            else:
+                vals = [["a", "bb" * 6, "c"], ["dd" * 9, "e", "ffff"]]
+            b = I.call(B, [vals], {"_buffer": ow.buf("A")})
+            if where == "alone":
+                a = I.call(A, [b], {"_buffer": ow.buf("B")})
+            else:
+                S = ow.lab.struct("Holder", [("k", I.global_lookup("scalar", "Float64")), ("m", A)])
+                s = I.call(S, [], {"k": 0.5, "m": b, "_buffer": ow.buf("B")})
+                a = I.getattr(s, "m")
+            view = ow.fresh(a)
+            out["src"] = {p: v for p, _, v in ow.walk(b, "") if not p.endswith("#")}
+            out["got"] = {p: v for p, _, v in ow.walk(view, "") if not p.endswith("#")}
+            out["want"] = {f"[{i},{j}]": vals[i][j] for i in range(2) for j in range(3)}
+
+        try:
+            res = I.explore(thunk, max_paths=4)
+        except _Bad as e:
+            cx.bad(None, construct=label, detail=f"the copy cannot be read back: {e}", anchor="array::Array._to_buffer", sub=where)
+            continue
+        if len(res) != 1:
+            raise AnalysisError(f"[L9] {label}: {len(res)} evaluation paths ({res[0]['conds'][:2]})")
+        if res[0]["exc"] is not None:
+            e = res[0]["exc"]
+            if e.etype in ("AttributeError", "NameError", "KeyError"):
+                raise AnalysisError(f"[L9] {label} cannot be evaluated: {e.etype}: {e.msg}")
+            # a refusal is not a wrong read-back (the property speaks of values written at construction)
+            cx.note(None, construct=label, detail=f"construction is refused ({e.etype}: {str(e.msg)[:80]}): nothing to read back")
+            continue
+        cx.need(out["src"] == out["want"] or all(I._eq(out["src"].get(k), v) is True for k, v in out["want"].items()), f"[L9] {label}: the SOURCE object does not read its own values (decided by L1/SV)")
+        wrong = [(k, out["got"].get(k), v) for k, v in sorted(out["want"].items()) if I._eq(out["got"].get(k), v) is not True]
+        cx.check(not wrong, None, construct=label, detail="every element of the copy reads the source's element of the same index",
+                 bad_detail=(f"element {wrong[0][0]} of the copy reads {wrong[0][1]!r}, the source has {wrong[0][2]!r} ({len(wrong)} of 6 elements differ): the source's bytes were taken over although its class lays them out in another order" if wrong else ""),
+                 anchor="array::Array._to_buffer", sub=where)
+    cx.floor(12, "sibling-class value cases")
